@@ -1448,7 +1448,9 @@ class SQLGenerator:
                 order_by=None,
                 limit=None,
                 offset=None,
-                aliases=aliases,
+                # Sub-queries keep the canonical column names (the outer SELECT refers to
+                # them by field name); custom aliases are applied in the outer SELECT only
+                aliases=None,
             )
 
             # Remove the instrumentation comment from sub-query
@@ -1469,7 +1471,9 @@ class SQLGenerator:
 
             # Build COALESCE expression
             coalesce_parts = [f"{cte}.{col_name}" for cte in cte_names]
-            select_exprs.append(f"COALESCE({', '.join(coalesce_parts)}) AS {col_name}")
+            dim_full_ref = f"{dim_ref}__{gran}" if gran else dim_ref
+            dim_alias = aliases.get(dim_full_ref, col_name)
+            select_exprs.append(f"COALESCE({', '.join(coalesce_parts)}) AS {dim_alias}")
 
         # Check for metric name collisions across models
         metric_name_counts: dict[str, int] = {}
